@@ -538,6 +538,13 @@ func fieldEdgeCalls(env *Env, rng *rand.Rand) {
 		mon.Try(func() { z.Sqrt(&y) })
 		mon.Try(func() { z.SetBytes(nil) })
 		mon.Try(func() { z.SetBytes(make([]byte, 100)) })
+		// reducing decoders on strings longer than a scalar (a wide hash reduced into the field), all bytes non-zero
+		wide := make([]byte, 33+rng.Intn(32))
+		for i := range wide {
+			wide[i] = byte(1 + rng.Intn(255))
+		}
+		mon.Try(func() { z.SetBytesLE(wide) })
+		mon.Try(func() { z.SetBytes(wide) })
 		var a, b fp.Element
 		a.SetUint64(uint64(rng.Int63()))
 		mon.Try(func() { b.Exp(a, e) })
